@@ -5,6 +5,7 @@ package c09
 import (
 	"bytes"
 	"fmt"
+	"io"
 	"math"
 	"math/rand"
 
@@ -26,6 +27,8 @@ func Run(m *mon.M) {
 	m.Require("polygon.first_vertex_at_face_boundary", 50)
 	m.Require("polygon.levels_seen", 20)
 	m.Require("polygon.vertex_on_face_boundary", 100)
+	m.Require("relations.compared", 20000)
+	m.Require("reader.short_reads", 20000)
 	m.Stream("polygon", m.N(40000, 1500000), polygon)
 	m.Stream("simple", m.N(60000, 3000000), simple)
 	m.Stream("loop", m.N(8000, 400000), loop)
@@ -90,6 +93,106 @@ func snapSome(r *rand.Rand, sp gen.LoopSpec, level int, pOther, pFree float64) (
 		return nil, 0, 0
 	}
 	return out, rmin, rmax
+}
+
+// src returns the encoding behind one of the io.Reader shapes a caller may hand to Decode: a bytes.Reader
+// (which is also an io.ByteReader), or a plain io.Reader that delivers the bytes in short reads of 1..7
+// bytes, one byte at a time, or returns the last bytes together with io.EOF. All of them obey the io.Reader
+// contract; the decoded value must not depend on the shape.
+func src(c *mon.Case, b []byte) io.Reader {
+	switch k := c.R.Intn(8); k {
+	case 0, 1, 2:
+		c.Count("reader.short_reads", 1)
+		return &chunkReader{b: b, r: c.R, max: 7}
+	case 3:
+		c.Count("reader.one_byte", 1)
+		return &chunkReader{b: b, r: c.R, max: 1}
+	case 4:
+		c.Count("reader.data_with_eof", 1)
+		return &chunkReader{b: b, r: c.R, max: 4096, eofWithData: true}
+	default:
+		c.Count("reader.bytes_reader", 1)
+		return bytes.NewReader(b)
+	}
+}
+
+type chunkReader struct {
+	b           []byte
+	r           *rand.Rand
+	max         int
+	eofWithData bool
+}
+
+func (cr *chunkReader) Read(p []byte) (int, error) {
+	if len(cr.b) == 0 {
+		return 0, io.EOF
+	}
+	if len(p) == 0 {
+		return 0, nil
+	}
+	n := 1 + cr.r.Intn(cr.max)
+	if n > len(p) {
+		n = len(p)
+	}
+	if n > len(cr.b) {
+		n = len(cr.b)
+	}
+	copy(p, cr.b[:n])
+	cr.b = cr.b[n:]
+	if cr.eofWithData && len(cr.b) == 0 {
+		return n, io.EOF
+	}
+	return n, nil
+}
+
+// sameRelations: the decoded loops / polygon give the same answers as the originals in relation queries
+// with third objects (tiny, medium and large loops around the group centres), in both roles.
+func sameRelations(c *mon.Case, tag string, p, q *s2.Polygon, centers []s2.Point, scale float64, det func(string) any) {
+	r := c.R
+	if len(centers) == 0 {
+		centers = []s2.Point{gen.Uniform(r)}
+	}
+	var ts []*s2.Loop
+	for _, ctr := range centers {
+		for _, rad := range []float64{scale * 0.01, scale * (0.05 + 0.6*r.Float64()), math.Min(1.5, scale*(1.5+r.Float64()))} {
+			if rad < 1e-12 {
+				continue
+			}
+			ts = append(ts, gen.RegularSpec(ctr, 4+r.Intn(5), rad, r.Float64()*7).Loop())
+		}
+	}
+	nl := p.NumLoops()
+	if nl > 6 {
+		nl = 6
+	}
+	for _, t := range ts {
+		tp := s2.PolygonFromLoops([]*s2.Loop{s2.LoopFromPoints(append([]s2.Point(nil), t.Vertices()...))})
+		for k := 0; k < nl; k++ {
+			a, b := p.Loop(k), q.Loop(k)
+			c.Count("relations.compared", 1)
+			if a.Contains(t) != b.Contains(t) || a.Intersects(t) != b.Intersects(t) || t.Contains(a) != t.Contains(b) || t.Intersects(a) != t.Intersects(b) {
+				c.Violation(tag+"/loop-relation-differs/wrong-answer", fmt.Sprintf("loop %d (%d vertices): Contains/Intersects with a third loop differ between the original and the decoded loop", k, a.NumVertices()), det(""))
+				return
+			}
+		}
+		if p.Contains(tp) != q.Contains(tp) || p.Intersects(tp) != q.Intersects(tp) || tp.Contains(p) != tp.Contains(q) || tp.Intersects(p) != tp.Intersects(q) {
+			c.Violation(tag+"/polygon-relation-differs/wrong-answer", "Polygon.Contains/Intersects with a third polygon differ between the original and the decoded polygon", det(""))
+			return
+		}
+	}
+	if p.Contains(p) != q.Contains(p) || p.Contains(p) != p.Contains(q) || p.Intersects(p) != q.Intersects(p) {
+		c.Violation(tag+"/polygon-relation-differs/wrong-answer", "Contains/Intersects between the original and the decoded polygon differ from those of the original with itself", det(""))
+	}
+	if !fEq(p.Area(), q.Area()) || !bitsEq(p.Centroid(), q.Centroid()) || !bitsEq(p.CapBound().Center(), q.CapBound().Center()) || !fEq(p.CapBound().Height(), q.CapBound().Height()) {
+		c.Violation(tag+"/area-centroid-capbound-differ/wrong-answer", "Area, Centroid or CapBound differ between the original and the decoded polygon", det(""))
+	}
+	for k := 0; k < nl; k++ {
+		a, b := p.Loop(k), q.Loop(k)
+		if !a.Equal(b) || !a.BoundaryEqual(b) {
+			c.Violation(tag+"/loop-not-Equal/wrong-answer", fmt.Sprintf("loop %d: Equal/BoundaryEqual(original, decoded) is false", k), det(""))
+			break
+		}
+	}
 }
 
 func polygon(c *mon.Case) {
@@ -276,7 +379,7 @@ func polygon(c *mon.Case) {
 		c.Violation("Polygon/Encode/unknown-version", fmt.Sprintf("encoder wrote version %d", version), det(""))
 	}
 	var q s2.Polygon
-	if err := q.Decode(bytes.NewReader(enc)); err != nil {
+	if err := q.Decode(src(c, enc)); err != nil {
 		c.Violation(fmt.Sprintf("Polygon/v%d/Decode/error-on-own-encoding", version), "Decode rejects the library's own encoding: "+err.Error(), det(""))
 		return
 	}
@@ -334,6 +437,9 @@ func polygon(c *mon.Case) {
 	if !bytes.Equal(b2.Bytes(), enc) {
 		c.Violation(tag+"/re-encode-differs/wrong-answer", "Encode(Decode(Encode(x))) != Encode(x)", det(hexb(b2.Bytes())))
 	}
+	if p.NumLoops() > 0 && c.I%2 == 0 {
+		sameRelations(c, tag, p, &q, centers, math.Max(p.CapBound().Radius().Radians(), 1e-9), det)
+	}
 }
 
 func loop(c *mon.Case) {
@@ -353,7 +459,7 @@ func loop(c *mon.Case) {
 	c.Distinct(uint64(len(enc)), uint64(c.I))
 	det := map[string]any{"kind": sp.Kind, "n": len(vs), "bytes": hexb(enc)}
 	var q s2.Loop
-	if err := q.Decode(bytes.NewReader(enc)); err != nil {
+	if err := q.Decode(src(c, enc)); err != nil {
 		c.Violation("Loop/Decode/error-on-own-encoding", err.Error(), det)
 		return
 	}
@@ -380,6 +486,22 @@ func loop(c *mon.Case) {
 	q.Encode(&b2)
 	if !bytes.Equal(b2.Bytes(), enc) {
 		c.Violation("Loop/re-encode-differs/wrong-answer", "Encode(Decode(Encode(x))) != Encode(x)", det)
+	}
+	if c.I%2 == 0 && len(vs) >= 3 {
+		for _, rad := range []float64{sp.RMax * 0.01, sp.RMax * (0.05 + 0.9*r.Float64()), math.Min(1.5, sp.RMax*(1.2+r.Float64()))} {
+			if rad < 1e-12 {
+				continue
+			}
+			t := gen.RegularSpec(sp.Center, 4+r.Intn(5), rad, r.Float64()*7).Loop()
+			c.Count("relations.compared", 1)
+			if l.Contains(t) != q.Contains(t) || l.Intersects(t) != q.Intersects(t) || t.Contains(l) != t.Contains(&q) || t.Intersects(l) != t.Intersects(&q) {
+				c.Violation("Loop/loop-relation-differs/wrong-answer", "Contains/Intersects with a third loop differ between the original and the decoded loop", det)
+				break
+			}
+		}
+		if !l.Equal(&q) || !fEq(l.Area(), q.Area()) || !bitsEq(l.Centroid(), q.Centroid()) {
+			c.Violation("Loop/Equal-area-centroid-differ/wrong-answer", "Equal(original, decoded) is false or Area/Centroid differ", det)
+		}
 	}
 	c.Count("loop.roundtrips", 1)
 }
@@ -420,7 +542,7 @@ func simple(c *mon.Case) {
 	case 0:
 		rt("Point", func(b *bytes.Buffer) error { return pt.Encode(b) }, func(x []byte) (func() bool, error) {
 			var q s2.Point
-			err := q.Decode(bytes.NewReader(x))
+			err := q.Decode(src(c, x))
 			return func() bool { return bitsEq(pt, q) }, err
 		})
 	case 1:
@@ -435,7 +557,7 @@ func simple(c *mon.Case) {
 		}
 		rt("Cap", func(b *bytes.Buffer) error { return cp.Encode(b) }, func(x []byte) (func() bool, error) {
 			var q s2.Cap
-			err := q.Decode(bytes.NewReader(x))
+			err := q.Decode(src(c, x))
 			return func() bool {
 				return bitsEq(cp.Center(), q.Center()) && fEq(cp.Height(), q.Height()) && cp.IsEmpty() == q.IsEmpty() && cp.IsFull() == q.IsFull()
 			}, err
@@ -458,21 +580,21 @@ func simple(c *mon.Case) {
 		}
 		rt("Rect", func(b *bytes.Buffer) error { return rc.Encode(b) }, func(x []byte) (func() bool, error) {
 			var q s2.Rect
-			err := q.Decode(bytes.NewReader(x))
+			err := q.Decode(src(c, x))
 			return func() bool { return rectEq(rc, q) }, err
 		})
 	case 3:
 		id := gen.RandCellID(r, r.Intn(31))
 		rt("CellID", func(b *bytes.Buffer) error { return id.Encode(b) }, func(x []byte) (func() bool, error) {
 			var q s2.CellID
-			err := q.Decode(bytes.NewReader(x))
+			err := q.Decode(src(c, x))
 			return func() bool { return q == id }, err
 		})
 	case 4:
 		cell := s2.CellFromCellID(gen.RandCellID(r, r.Intn(31)))
 		rt("Cell", func(b *bytes.Buffer) error { return cell.Encode(b) }, func(x []byte) (func() bool, error) {
 			var q s2.Cell
-			err := q.Decode(bytes.NewReader(x))
+			err := q.Decode(src(c, x))
 			return func() bool {
 				if q.ID() != cell.ID() || q.Level() != cell.Level() || q.Face() != cell.Face() {
 					return false
@@ -493,7 +615,7 @@ func simple(c *mon.Case) {
 		c.Distinct(uint64(len(cu)), uint64(c.I))
 		rt("CellUnion", func(b *bytes.Buffer) error { return cu.Encode(b) }, func(x []byte) (func() bool, error) {
 			var q s2.CellUnion
-			err := q.Decode(bytes.NewReader(x))
+			err := q.Decode(src(c, x))
 			return func() bool {
 				if len(q) != len(cu) {
 					return false
@@ -516,7 +638,7 @@ func simple(c *mon.Case) {
 		c.Distinct(uint64(n), uint64(c.I))
 		rt("Polyline", func(b *bytes.Buffer) error { return pl.Encode(b) }, func(x []byte) (func() bool, error) {
 			var q s2.Polyline
-			err := q.Decode(bytes.NewReader(x))
+			err := q.Decode(src(c, x))
 			return func() bool {
 				if len(q) != len(pl) {
 					return false
